@@ -125,6 +125,85 @@ func (c *Ctx) guardFrames(s *thresholdShape, mu *ssa.MapUpdate) []guardFrame {
 			org: func(v ssa.Value) string { return orgSubst(v, subst) },
 		})
 	}
+	// predicate helpers: g(...) bool whose true result is known where the link is counted. The guards are those that
+	// hold at every `return true` of g.
+	for _, h := range allCalls(s.f) {
+		g := h.Common().StaticCallee()
+		if !c.isStageHelper(g) || h.Value() == nil || g.Signature.Results().Len() != 1 || !isBool(g.Signature.Results().At(0).Type().Underlying()) || !c.condAt(h.Value(), true, mu.Block()) {
+			continue
+		}
+		h, g := h, g
+		subst := map[*ssa.Parameter]string{}
+		for i, prm := range g.Params {
+			if i < len(h.Common().Args) {
+				subst[prm] = org(h.Common().Args[i])
+			}
+		}
+		var rets []*ssa.Return
+		for _, r := range returnsOf(g) {
+			// through phis: an edge that can carry true
+			mayTrue := false
+			var walk func(v ssa.Value, d int)
+			walk = func(v ssa.Value, d int) {
+				if d > 6 {
+					mayTrue = true
+					return
+				}
+				switch x := v.(type) {
+				case *ssa.Const:
+					if x.Value != nil && x.Value.String() == "true" {
+						mayTrue = true
+					}
+				case *ssa.Phi:
+					for _, e := range x.Edges {
+						walk(e, d+1)
+					}
+				default:
+					mayTrue = true
+				}
+			}
+			walk(r.Results[0], 0)
+			if mayTrue {
+				rets = append(rets, r)
+			}
+		}
+		// only plain `return true` / `return false` helpers are read (a phi result would need edge facts)
+		plain := len(rets) > 0
+		for _, r := range rets {
+			if k, ok := r.Results[0].(*ssa.Const); !ok || k.Value == nil || k.Value.String() != "true" {
+				plain = false
+			}
+		}
+		if !plain {
+			continue
+		}
+		out = append(out, guardFrame{f: g, via: h,
+			okAt: func(call ssa.CallInstruction) bool {
+				for _, r := range rets {
+					if !c.okCallAt(call, r.Block()) {
+						return false
+					}
+				}
+				return true
+			},
+			factAt: func(v ssa.Value, want bool) bool {
+				for _, r := range rets {
+					if !c.condAt(v, want, r.Block()) {
+						return false
+					}
+				}
+				return true
+			},
+			val: func(v ssa.Value, at ssa.Instruction) ssa.Value {
+				x := resolve(v, at)
+				if prm, ok := x.(*ssa.Parameter); ok && prm.Parent() == g {
+					return resolve(h.Common().Args[paramIndex(prm)], h)
+				}
+				return x
+			},
+			org: func(v ssa.Value) string { return orgSubst(v, subst) },
+		})
+	}
 	return out
 }
 
@@ -185,8 +264,9 @@ func (c *Ctx) routeOfFrame(s *thresholdShape, mu *ssa.MapUpdate) (route string, 
 				eq := false
 				if refs := id.Referrers(); refs != nil {
 					for _, r := range *refs {
-						if bo, ok := r.(*ssa.BinOp); ok && bo.Op == token.EQL && ((fr.val(bo.X, bo) == k && resolve(bo.Y, bo) == id) || (fr.val(bo.Y, bo) == k && resolve(bo.X, bo) == id)) {
-							if fr.factAt(bo, true) {
+						if bo, ok := r.(*ssa.BinOp); ok && (bo.Op == token.EQL || bo.Op == token.NEQ) && ((fr.val(bo.X, bo) == k && resolve(bo.Y, bo) == id) || (fr.val(bo.Y, bo) == k && resolve(bo.X, bo) == id)) {
+							// signer == authorized known true, or signer != authorized known false
+							if fr.factAt(bo, bo.Op == token.EQL) {
 								eq = true
 							}
 						}
